@@ -19,6 +19,7 @@ import (
 
 var repo = flag.String("repo", "/repo", "repository root")
 var outDir = flag.String("outdir", "", "output directory (coq/gen)")
+var only = flag.String("only", "", "comma-separated section names to regenerate (default: all)")
 
 type gen struct {
 	fset *token.FileSet
@@ -212,7 +213,16 @@ func main() {
 	}
 	failed := false
 	sort.Slice(sections, func(i, j int) bool { return sections[i].Name < sections[j].Name })
+	want := map[string]bool{}
+	for _, n := range strings.Split(*only, ",") {
+		if n = strings.TrimSpace(n); n != "" {
+			want[n] = true
+		}
+	}
 	for _, sec := range sections {
+		if len(want) > 0 && !want[sec.Name] {
+			continue
+		}
 		g := &gen{fset: token.NewFileSet()}
 		g.p(header, sec.Name)
 		sec.Run(g)
